@@ -205,7 +205,7 @@ Definition lookup_names (t : table) (names : list string) : list (N * chan) * bo
   let amb := existsb (fun n => (2 <=? length (holders t n))%nat ||
                                ((2 <=? count_name n names)%nat && (1 <=? length (holders t n))%nat)) names in
   if (match names with [] => false | _ => true end) && forallb valid_name names
-  then (flat_map (holders t) names, amb)
+  then (flat_map (holders t) (remove_dups names), amb)   (* the name index returns each listed value's bucket once *)
   else (filter (fun kc => existsb (name_eqb (c_name kc.2)) names) (sorted_tab t), amb).
 
 Fixpoint first_dup (seen : list string) (names : list string) : bool :=
@@ -351,11 +351,39 @@ Fixpoint indices_where {A} (p : A -> bool) (l : list A) (i : nat) : list nat :=
   | x :: r => if p x then i :: indices_where p r (S i) else indices_where p r (S i)
   end.
 
-(* createAndUpdateFreeVirtual on the bootstrapper. The harness never passes existing keys, so the
-   initial update-by-key finds nothing (gorp returns not-found, which the Go code skips). *)
-Definition create_free (fixed : bool) (host : N) (s : st) (chs : list chan) (o : copts)
+(* createAndUpdateFreeVirtual, first step: request entries that carry the key of an existing row
+   (clients re-submit a calculated channel WITH its key to change name / expression). gorp's
+   Update over the bare key list finds nothing unless EVERY key of the request exists — a single
+   entry without a key (its key is NewKey(free, 0), never a row) makes the whole update a no-op,
+   which the Go code accepts (not-found is skipped). With retrieve-if-exists the request entry is
+   reset to the stored row instead. *)
+Definition update_row (c ic : chan) : chan :=
+  if is_calc c && is_calc ic
+  then Chan (c_name ic) (c_lease c) (c_dt ic) (c_isidx c) (c_lkey c) (c_lidx ic) (c_virt c) (c_int c) (c_expr ic)
+  else set_name c (c_name ic).
+Definition update_existing (s : st) (chs : list chan) (retr : bool) : st * list chan :=
+  let keys := chan_key <$> chs in
+  let ex := filter (fun k => negb (k =? 0)) keys in
+  match ex with
+  | [] => (s, chs)
+  | _ =>
+      if forallb (fun k => bool_decide (is_Some (s_tab s !! k))) ex then
+        foldl (fun '(s', chs') k =>
+                 match s_tab s !! k, index_where (N.eqb k) keys with
+                 | Some c, Some i =>
+                     match chs !! i with
+                     | Some ic => if retr then (s', <[i := c]> chs')
+                                  else (upd_tab s' (<[k := update_row c ic]> (s_tab s')), chs')
+                     | None => (s', chs')
+                     end
+                 | _, _ => (s', chs')
+                 end) (s, chs) ex
+      else (s, chs)
+  end.
+
+(* createAndUpdateFreeVirtual on the bootstrapper, after the update-by-key step *)
+Definition create_free_body (fixed : bool) (host : N) (s : st) (chs : list chan) (o : copts)
   : st * err * list chan :=
-  if negb (names_required chs) then (s, ENameRequired, []) else
   let '(s1, er1, chs1) := if o_over o then delete_overwritten fixed host s chs else (s, EOk, chs) in
   if negb (is_ok er1) then (s1, er1, []) else
   (* existing calculated channels (substituted by deleteOverwritten) that have no index yet *)
@@ -398,6 +426,12 @@ Definition create_free (fixed : bool) (host : N) (s : st) (chs : list chan) (o :
                       | Some old => (<[chan_key c := set_lidx old (c_lidx c)]> t, EOk)
                       | None => (t, ENotFound) end) (t1, EOk) upd in
   if negb (is_ok er3) then (upd_tab s2 t2, er3, []) else (upd_tab s2 t2, EOk, chs4).
+
+Definition create_free (fixed : bool) (host : N) (s : st) (chs : list chan) (o : copts)
+  : st * err * list chan :=
+  if negb (names_required chs) then (s, ENameRequired, []) else
+  let '(s0, chs0) := update_existing s chs (o_retr o) in
+  create_free_body fixed host s0 chs0 o.
 
 (* create(): defaulting / calculated normalisation, may fail on a calculated channel with an index *)
 Fixpoint normalise (host : N) (chs : list chan) : option (list chan) :=
